@@ -32,10 +32,13 @@ fn write_replay(dir: &Path, prop: &str, v: &Violation) -> PathBuf {
         "detail": v.fail.detail,
         "seed": v.seed,
         "case": v.case,
+        // cargo features of the library build that produced this replay ("" = default); `./check --replay` rebuilds with them
+        "features": std::env::var("VERIF_BUILD_FEATURES").unwrap_or_default(),
     });
     let text = serde_json::to_string_pretty(&body).unwrap();
     let h = vharness::util::h64(&(v.check.as_str(), v.fail.rule.as_str(), v.case.to_string()));
-    let p = d.join(format!("{}-{:016x}.json", v.fail.rule.replace('.', "_"), h));
+    let feat = std::env::var("VERIF_BUILD_FEATURES").map(|f| if f.is_empty() { f } else { format!("-{f}") }).unwrap_or_default();
+    let p = d.join(format!("{}{}-{:016x}.json", v.fail.rule.replace('.', "_"), feat, h));
     let _ = std::fs::write(&p, text);
     p
 }
@@ -232,7 +235,17 @@ fn main() {
                 println!("COLLECT distinct failing classes: {}", g.len());
                 exit = 3;
             }
+            if let Ok(extra) = std::env::var("VERIF_EXTRA_PARTS") {
+                // summaries of the same check run against other cargo feature sets of the library (thorough, C02-C04)
+                for part in extra.split(';').map(|s| s.trim()).filter(|s| !s.is_empty()) {
+                    rep.parts.push(json!({"part": "feature_variant", "summary": part}));
+                }
+            }
             let wall = t0.elapsed().as_secs_f64();
+            if std::env::var("VERIF_NO_EVIDENCE").is_ok() {
+                println!("{} {} seed={} features={} evaluations={} distinct_nontrivial={} violations={} wall={:.1}s", prop, ctx.tier.name(), ctx.seed, std::env::var("VERIF_BUILD_FEATURES").unwrap_or_default(), rep.stats.evaluations, rep.stats.nontrivial.len(), rep.violations.len(), wall);
+                std::process::exit(exit);
+            }
             if let Err(e) = evidence::write(&ctx, prop, check.level, &rep, wall) {
                 eprintln!("cannot write evidence: {e}");
                 std::process::exit(2);
